@@ -10,6 +10,8 @@ import JunoModel.C17.Model
 * `life <oneshot 0|1> <chain-id answers e|o|m… or -> <latest|-> <fin1|-> <chunk> <failAt|none> <fin2>`
     executes `startUp` / `runLife` on the stored head given to `new`, the `hist` lines and every
     event-loop input received since `new`                 → `gate=proceed|fatal|cancelled head=<h>`
+* `catchupfault <latest> <fin1> <chunk> <failAt|none> <fin2> <r|w>`  catch-up whose final `setL1Head`
+    hits a failing database                              → `res=<r> q=… head=<h> feed=<h>`
 * `tickfault <fin> <r|w>`   `setL1Head` with a failing stored-head read / write
                                                           → `head=<h> feed=<h> fatal=<0|1>`
 * `raw <blockNumber> <blockHash> <globalRoot> <l1> <removed>` → `ok`; `fwdstream` executes
@@ -134,6 +136,16 @@ def dstep (s : DState) (line : String) : DState × String :=
     match bool? b with
     | some b => ({ s with st := step s.guard s.st (.resub b), trace := .resub b :: s.trace }, "ok")
     | none => (s, "bad-op")
+  | ["catchupfault", la, f1, ch, fa, f2, k] =>
+    let fa? : Option (Option Nat) := if fa == "none" then some none else (hexToNat? fa).map some
+    let k? : Option DbFault := if k == "r" then some .readErr else if k == "w" then some .writeErr else none
+    match hexToNat? la, hexToNat? f1, hexToNat? ch, fa?, hexToNat? f2, k? with
+    | some la, some f1, some ch, some fa, some f2, some k =>
+      let r := catchUpFault s.guard s.st s.hist la f1 ch fa f2 k
+      ({ s with st := r.1 },
+        "res=" ++ fmtRes r.2.1.result ++ " q=" ++ fmtQueries r.2.1.queries ++
+        " head=" ++ fmtHead r.1.head ++ " feed=" ++ fmtHead r.2.2)
+    | _, _, _, _, _, _ => (s, "bad-op")
   | ["hist", a, b, c, d, e] =>
     match su? a b c d e with
     | some u => ({ s with hist := s.hist ++ [u] }, "ok")
